@@ -3,7 +3,8 @@
 
    Addresses live in an abstract W-bit space per family (4 | 6); the driver embeds family 4 as
    10.0.0.0/(32-W) and family 6 as 2001:db8::/(128-W).
-     prefix   [fam, v, len]    len in 0..W, v the (possibly unmasked) base value
+     prefix   [fam, v, len]    len in 0..W, v the (possibly unmasked) base value; len = -(32-W) / -(128-W)
+                               is the default route of the family (real mask size 0)
      packet   [fam, dst, tos, frag]   frag: 0 none, 1 more-fragments flag, 2 fragment offset # 0 (IPv4 only)
      class    [m, sess]        m: "true" | "false" | "tos" (IPv4 TOS = 184); sess: 1 iff a session is set
      entry    [p |-> prefix, cls |-> <<class, ...>>]
@@ -17,8 +18,15 @@ EXTENDS Integers, Sequences, FiniteSets
 Pow2(n) == CASE n = 0 -> 1 [] n = 1 -> 2 [] n = 2 -> 4 [] n = 3 -> 8 [] n = 4 -> 16
              [] n = 5 -> 32 [] n = 6 -> 64 [] n = 7 -> 128 [] OTHER -> 256
 
+\* real mask size of a prefix; len = -(32-W) resp. -(128-W) is the default route 0.0.0.0/0 resp. ::/0
+MaskBits(p, W) == p.len + (IF p.fam = 4 THEN 32 - W ELSE 128 - W)
+IsDefault(p, W) == MaskBits(p, W) = 0
+
+\* a < 0 stands for an address outside the embedded space: only a default route contains it
 PContains(p, fam, a, W) ==
-    p.fam = fam /\ (a \div Pow2(W - p.len)) = (p.v \div Pow2(W - p.len))
+    /\ p.fam = fam
+    /\ \/ IsDefault(p, W)
+       \/ (a >= 0 /\ p.len >= 0 /\ (a \div Pow2(W - p.len)) = (p.v \div Pow2(W - p.len)))
 
 -----------------------------------------------------------------------------
 (* Routing table *)
